@@ -1,4 +1,5 @@
 import VivProofs.PathLemmas
+import VivProofs.PathInverse
 /-!
 # C17 — hierarchy paths obey a consistent path algebra
 
@@ -402,5 +403,58 @@ theorem startsWith_iff (a s : Path) : startsWith a s = true ↔ ∃ r, a = s ++ 
       constructor
       · rintro ⟨rfl, r, rfl⟩; exact ⟨r, rfl, rfl⟩
       · rintro ⟨r, rfl, rfl⟩; exact ⟨rfl, r, rfl⟩
+
+/-! ## The leaf enumerations are mutually inverse -/
+
+/-- **`paths_to_dict` inverts `dict_to_paths`**: for every nested dictionary with unique keys whose
+sub-dictionaries are non-empty (a leaf is any value that is not a dictionary), rebuilding a dictionary from the
+enumerated `(path, leaf)` pairs gives the dictionary back — entry for entry, in the same order. -/
+theorem pathsToDict_dictToPaths (kvs : KVs) (hnd : KV.Nodup kvs) (hk : ∀ kv ∈ kvs, Leafy kv.2) :
+    pathsToDict (dictToPaths [] (.dict kvs)) = .ok (.dict kvs) := by
+  have h := fold_top kvs [] (by simpa using hnd) hk
+  have hdef : pathsToDict (dictToPaths [] (.dict kvs)) =
+      (dictToPaths.goList [] kvs).foldlM step (.dict []) := rfl
+  rw [hdef, h]; simp
+
+/-- **`hierarchy_depth` enumerates the same leaves as `dict_to_paths`**, in the same order (the model of
+`hierarchy_depth` is a list of `(path, node)` pairs in insertion order). -/
+theorem hierarchyDepth_eq_dictToPaths (root : Path) (kvs : KVs) :
+    hierarchyDepth root kvs = dictToPaths root (.dict kvs) := by
+  simp [hierarchyDepth, dictToPaths]
+
+/-- so `paths_to_dict` inverts `hierarchy_depth` as well -/
+theorem pathsToDict_hierarchyDepth (kvs : KVs) (hnd : KV.Nodup kvs) (hk : ∀ kv ∈ kvs, Leafy kv.2) :
+    pathsToDict (hierarchyDepth [] kvs) = .ok (.dict kvs) := by
+  rw [hierarchyDepth_eq_dictToPaths]; exact pathsToDict_dictToPaths kvs hnd hk
+
+/-- **`get_in` reads every enumerated leaf**: each `(path, leaf)` pair that `dict_to_paths` lists for a leafy
+value is what `get_in` finds at that path. -/
+theorem getIn_of_mem_dictToPaths (v : Val) (hv : Leafy v) :
+    ∀ (p : Path) (x : Val), (p, x) ∈ dictToPaths [] v → getIn v p = .ok (some x) := by
+  induction hv with
+  | leaf v h =>
+    intro p x hm
+    rw [dictToPaths_leaf _ v h] at hm
+    simp only [List.mem_singleton, Prod.mk.injEq] at hm
+    obtain ⟨rfl, rfl⟩ := hm
+    cases x <;> rfl
+  | node kvs _ hnd hk ih =>
+    intro p x hm
+    simp only [dictToPaths] at hm
+    obtain ⟨⟨k, c⟩, hkc, hpv⟩ := mem_goList [] kvs (p, x) hm
+    simp only [List.nil_append] at hpv
+    rw [dictToPaths_key c (hk (k, c) hkc) k []] at hpv
+    simp only [List.mem_map, Prod.mk.injEq] at hpv
+    obtain ⟨⟨q, y⟩, hq, rfl, rfl⟩ := hpv
+    simp only [getIn, lookup_of_mem_nodup kvs hnd k c hkc]
+    exact ih (k, c) hkc q y hq
+
+/-- non-vacuity: a three-level dictionary with a leaf next to a branch -/
+example :
+    let d : KVs := [("a", .dict [("x", .int 1), ("y", .dict [("z", .str "s")])]), ("b", .int 2)]
+    dictToPaths [] (.dict d) = [(["a", "x"], .int 1), (["a", "y", "z"], .str "s"), (["b"], .int 2)] ∧
+    pathsToDict (dictToPaths [] (.dict d)) = .ok (.dict d) := by
+  constructor <;> rfl
+
 
 end VivProps.C17
